@@ -65,6 +65,8 @@ class Lower(ast.NodeTransformer):
          a in c / not in ->  sx_in_(a, c)          (equality scan for symbolic a)
          c[k]  (load)    ->  sx_getitem_(c, k)     (equality scan for symbolic int k on dicts)
          o.get(...)      ->  sx_get_(o, ...)       (same)
+         bytes(...)      ->  sx_bytes_(...)        (keeps symbolic elements)
+         int.from_bytes  ->  sx_int_from_bytes_    (arithmetic on symbolic bytes)
     """
 
     def __init__(self):
@@ -79,6 +81,10 @@ class Lower(ast.NodeTransformer):
                 ast.Call(func=ast.Name(id="sx_bjoin_", ctx=ast.Load()), args=[f.value] + node.args, keywords=[]),
                 node,
             )
+        if isinstance(f, ast.Attribute) and f.attr == "from_bytes" and isinstance(f.value, ast.Name) and f.value.id == "int":
+            return ast.copy_location(ast.Call(func=ast.Name(id="sx_int_from_bytes_", ctx=ast.Load()), args=node.args, keywords=node.keywords), node)
+        if isinstance(f, ast.Name) and f.id == "bytes":
+            return ast.copy_location(ast.Call(func=ast.Name(id="sx_bytes_", ctx=ast.Load()), args=node.args, keywords=node.keywords), node)
         if isinstance(f, ast.Attribute) and f.attr == "get" and not any(isinstance(a, ast.Starred) for a in node.args):
             return ast.copy_location(
                 ast.Call(func=ast.Name(id="sx_get_", ctx=ast.Load()), args=[f.value] + node.args, keywords=node.keywords),
@@ -144,7 +150,7 @@ def load_symbolic():
             mod = types.ModuleType("someip." + name)
             mod.__file__ = path
             mod.__package__ = "someip"
-            mod.__dict__.update(bytearray=symbytes.bytearray_, sx_bjoin_=symbytes.bjoin, sx_in_=symbytes.sx_in, sx_getitem_=symbytes.sx_getitem, sx_get_=symbytes.sx_get)
+            mod.__dict__.update(bytearray=symbytes.bytearray_, sx_bjoin_=symbytes.bjoin, sx_in_=symbytes.sx_in, sx_getitem_=symbytes.sx_getitem, sx_get_=symbytes.sx_get, sx_bytes_=symbytes.sx_bytes, sx_int_from_bytes_=symbytes.sx_int_from_bytes)
             sys.modules["someip." + name] = mod
             setattr(pkg, name, mod)
             exec(compile(tree, path, "exec"), mod.__dict__)
